@@ -10,7 +10,9 @@
 
 namespace
 {
-struct Entry { std::string name; Domain dom; Fn fn; bool sqrt_dependent; bool double_result; bool constexpr_claimed; };
+struct Entry { std::string name; Domain dom; Fn fn; bool sqrt_dependent; bool double_result; bool constexpr_claimed; bool gnu_only = false; };
+Fn I128_OK;
+inline bool cfg_has(const Entry & e, size_t ci) { return !e.gnu_only || I128_OK.f[ci](0, 0) != 0; }
 std::vector<Entry> ENTRIES;
 Fn SQ_AB, SQ_STD;
 std::string g_points_path; // set through VERIF_POINTS (C08 only): sample points for the constant-evaluator arm
@@ -27,15 +29,16 @@ void diff_init()
   for(auto & n : names)
     {
     Domain d;
-    if(n == "cplusplus" || n == "sqrt_constexpr_available") continue; // harness helpers describing the configuration, not library behaviour
+    if(n == "cplusplus" || n == "sqrt_constexpr_available" || n == "i128_supported") continue; // harness helpers describing the configuration, not library behaviour
     if(!entry_domain(n, d)) { fprintf(stderr, "HARNESS-ERROR: wrapper entry %s has no argument domain\n", n.c_str()); _exit(2); }
     Entry e; e.name = n; e.dom = d; e.fn = resolve(n.c_str());
     e.sqrt_dependent = n == "sqrt" || n == "hypot" || n == "asin" || n == "acos" || n == "sqrt_reassign";
     e.double_result = n.find("f64") != std::string::npos && (n.rfind("cast_", 0) == 0 || n.rfind("f2a_", 0) == 0 || n.rfind("f2fp_", 0) == 0 || n.rfind("add_", 0) == 0 || n.rfind("sub_", 0) == 0 || n.rfind("mul_", 0) == 0 || n.rfind("div_", 0) == 0);
-    e.constexpr_claimed = !rt_only.count(n) && n.find("_reassign") == std::string::npos; // the stateful shapes use a volatile sink
+    e.gnu_only = n.find("i128") != std::string::npos; // __int128 operands exist only in GNU-dialect configurations
+    e.constexpr_claimed = !rt_only.count(n) && n.find("_reassign") == std::string::npos && !e.gnu_only; // the stateful shapes use a volatile sink
     ENTRIES.push_back(e);
     }
-  SQ_AB = resolve("sqrt_abacus"); SQ_STD = resolve("sqrt_std_math"); reassign_init();
+  SQ_AB = resolve("sqrt_abacus"); SQ_STD = resolve("sqrt_std_math"); I128_OK = resolve("i128_supported"); reassign_init();
   build_fn_index();
   if(const char * p = getenv("VERIF_POINTS")) g_points_path = p;
   }
@@ -50,6 +53,7 @@ void j_returns(Ctx & c, int64_t a, int64_t b, int64_t ei)
   if(!in_domain(e.dom.a, a) || !in_domain(e.dom.b, b)) return;
   for(size_t ci = 0; ci < g_cfgs.size(); ++ci)
     {
+    if(!cfg_has(e, ci)) continue;
     CallRes r = c.call(e.fn.f[ci], a, b);
     if(r.sig) c.signal_event((int)ci, e.name.c_str(), a, b, r.sig);
     }
@@ -62,6 +66,7 @@ void j_diff(Ctx & c, int64_t a, int64_t b, int64_t ei)
   int64_t ref[3]; bool have[3] = { false, false, false }; int refci[3] = { 0, 0, 0 };
   for(size_t ci = 0; ci < g_cfgs.size(); ++ci)
     {
+    if(!cfg_has(e, ci)) continue;
     CallRes r = c.call(e.fn.f[ci], a, b);
     if(r.sig) { c.signal_event((int)ci, e.name.c_str(), a, b, r.sig); continue; }
     int g = e.sqrt_dependent ? (g_cfgs[ci].sqrt_algo == 1 ? 1 : (g_cfgs[ci].sqrt_algo == 0 ? 0 : 2)) : 0;
@@ -115,6 +120,7 @@ void diff_hook(Ctx & c, fn2 f, int64_t a, int64_t b, const CallRes & r)
   auto it = FN_INDEX.find(f);
   if(it == FN_INDEX.end() || r.sig) return;
   int ei = it->second.first, ci = it->second.second;
+  if(ENTRIES[(size_t)ei].gnu_only) return;
   if(t_pending.size() != ENTRIES.size()) t_pending.assign(ENTRIES.size(), Pending());
   Pending & p = t_pending[(size_t)ei]; Entry & e = ENTRIES[(size_t)ei];
   if(!p.valid || p.a != a || p.b != b) { p.valid = true; p.a = a; p.b = b; p.have = 0; }
@@ -251,3 +257,6 @@ Property P_C08 = { "C08", diff_init, c08_run,
   "NaN-sentinel fixed arguments and shift counts from the boundary product, every 16th random tuple, sqrt arguments >= 2^46 raw or < 16; distinct by (entry,a,b)", {}, {} };
 Registrar R_C08(&P_C08);
 }
+void judge_reassign(Ctx & c, int64_t a, int64_t b, int64_t which) { j_reassign(c, a, b, which); }
+size_t reassign_count() { return REASSIGN.size(); }
+void reassign_setup() { if(REASSIGN.empty()) reassign_init(); }
